@@ -233,6 +233,10 @@ type Machine struct {
 	rtErrType types.Type
 	ufFacts   []*sym.Term
 	modelRefuted bool
+	trackGlobals bool
+	gStores      []string
+	gLoads       []string
+	harnessFn    map[*ssa.Function]bool
 }
 
 func NewMachine(p *Program, solverName string, timeoutMs int) (*Machine, error) {
@@ -938,6 +942,11 @@ func (m *Machine) resetPath() {
 	m.MapOrder = m.MapOrderDefault
 	m.inconcl = false
 	m.failure = nil
+	m.trackGlobals = false
+	m.gStores, m.gLoads = nil, nil
+	if m.harnessFn == nil {
+		m.harnessFn = map[*ssa.Function]bool{}
+	}
 }
 
 // RunPath executes the entry function once along the current trail (extending it)
